@@ -559,3 +559,265 @@ Proof.
   induction a as [|c a IH]; intros r H; cbn; [reflexivity|]. cbn in H. apply andb_prop in H as [H1 H2].
   unfold not_eq in H1. destruct (Ascii.eqb c eq_sign); [discriminate|]. now rewrite IH.
 Qed.
+
+(* ---- what the source-derived parameters must satisfy for the round trip to work *)
+Definition structural_names : list string := ["COMMENT"; "HISTORY"; "END"; "CONTINUE"; ""].
+Definition params_sound (p : params) : bool :=
+  (p_short_keylen p =? 8) && (p_short_vmax p <=? 68)%N && (p_card p =? 80)%N && (p_hier_overhead p =? 13)%N &&
+  match p_long_keymax p with Some m => m <=? 66 | None => false end &&
+  p_long_blank_check p && p_quote_aware p && p_unquote_read p && p_printable_check p &&
+  forallb (reserved p) structural_names.
+
+Lemma gen_params_sound : params_sound gen_params = true.
+Proof. vm_compute. reflexivity. Qed.
+
+Ltac split_andb H :=
+  repeat match type of H with
+         | (_ && _) = true => let H1 := fresh "PS" in apply andb_prop in H as [H H1]
+         end.
+
+Definition key_char_short (c : ascii) : bool := is_upper c || is_digit c.
+Definition key_char_long (c : ascii) : bool := not_eq c && negb (is_lower c) && is_printable c.
+
+Lemma long_scan_none : forall k, long_scan true k = None -> forall_chars key_char_long k = true.
+Proof.
+  induction k as [|c r IH]; cbn; [reflexivity|]. unfold key_char_long at 1, not_eq.
+  destruct (Ascii.eqb c eq_sign); [discriminate|]. destruct (is_lower c); [discriminate|].
+  destruct (is_printable c); cbn; [exact IH | discriminate].
+Qed.
+
+Lemma accepts_short : forall p k v, params_sound p = true -> accepts p k v = true -> String.length k <= 8 ->
+  reserved p k = false /\ forall_chars key_char_short k = true /\ forall_chars is_printable v = true /\ elen v <= 68.
+Proof.
+  intros p k v PS A L. unfold params_sound in PS. split_andb PS.
+  apply Nat.eqb_eq in PS. apply N.leb_le in PS8.
+  unfold accepts, check_key in A. destruct (reserved p k); [discriminate|].
+  rewrite PS in A. destruct (String.length k <=? 8) eqn:E; [|apply Nat.leb_gt in E; lia].
+  fold key_char_short in A. destruct (forall_chars key_char_short k); [|discriminate].
+  rewrite PS1 in A. cbn [andb] in A. destruct (forall_chars is_printable v); [|discriminate]. cbn in A.
+  unfold enc_len in A. rewrite PS3 in A. fold (elen v) in A.
+  apply negb_true_iff, N.ltb_ge in A. repeat split; lia.
+Qed.
+
+Lemma last_char_some : forall c r, exists l, last_char (String c r) = Some l.
+Proof.
+  intros c r; revert c; induction r as [|c2 r2 IH]; intros c; [now exists c|].
+  destruct (IH c2) as [l H]. exists l. exact H.
+Qed.
+
+Lemma accepts_long : forall p k v, params_sound p = true -> accepts p k v = true -> 8 < String.length k ->
+  reserved p k = false /\ forall_chars key_char_long k = true /\ String.length k <= 66 /\
+  first_nonblank k = true /\ last_nonblank k = true /\ String.prefix hier_prefix k = false /\
+  forall_chars is_printable v = true /\ elen v + 13 + String.length k <= 80.
+Proof.
+  intros p k v PS A L. unfold params_sound in PS. split_andb PS.
+  apply Nat.eqb_eq in PS. apply N.eqb_eq in PS7, PS6.
+  unfold accepts, check_key in A. destruct (reserved p k); [discriminate|].
+  rewrite PS in A. destruct (String.length k <=? 8) eqn:E; [apply Nat.leb_le in E; lia|].
+  rewrite PS1 in A. destruct (long_scan true k) eqn:LS; [discriminate|].
+  destruct (p_long_keymax p) as [m|]; [|discriminate]. apply Nat.leb_le in PS5.
+  destruct (m <? String.length k) eqn:EM; [discriminate|]. apply Nat.ltb_ge in EM.
+  rewrite PS4 in A. cbn [andb] in A.
+  unfold first_nonblank, last_nonblank.
+  assert (KS : exists c0 r0, k = String c0 r0) by (destruct k as [|c0 r0]; [cbn in L; lia | eauto]).
+  destruct KS as (c0 & r0 & KS).
+  destruct (last_char_some c0 r0) as [lc ELC]. rewrite <- KS in ELC. rewrite ELC in *.
+  assert (FC : first_char k = Some c0) by now rewrite KS. rewrite FC in *.
+  destruct (is_blank c0); [discriminate|]. destruct (is_blank lc); [discriminate|]. cbn [orb] in A.
+  destruct (String.prefix hier_prefix k); [discriminate|]. cbn in A.
+  destruct (forall_chars is_printable v); [|discriminate]. cbn in A.
+  unfold enc_len, long_vmax in A. rewrite PS3, PS7, PS6 in A. fold (elen v) in A.
+  destruct (13 + N.of_nat (String.length k) <=? 80)%N eqn:EU; [|apply N.leb_gt in EU; lia].
+  apply negb_true_iff, N.ltb_ge in A. apply long_scan_none in LS. repeat split; try reflexivity; try assumption; lia.
+Qed.
+
+(* ---- character classes *)
+Lemma is_blank_code : forall c, is_blank c = true -> code c = 32.
+Proof. intros c H. unfold is_blank in H. apply Ascii.eqb_eq in H. now subst. Qed.
+Lemma eq_sign_code : forall c, Ascii.eqb c eq_sign = true -> code c = 61.
+Proof. intros c H. apply Ascii.eqb_eq in H. now subst. Qed.
+Lemma short_char_facts : forall c, key_char_short c = true -> is_blank c = false /\ not_eq c = true /\ is_printable c = true.
+Proof.
+  intros c H. unfold key_char_short, is_upper, is_digit in H.
+  assert (R : (65 <= code c <= 90) \/ (48 <= code c <= 57)).
+  { apply orb_prop in H as [H|H]; apply andb_prop in H as [H1 H2]; apply Nat.leb_le in H1, H2; lia. }
+  repeat split.
+  - destruct (is_blank c) eqn:E; [apply is_blank_code in E; lia | reflexivity].
+  - unfold not_eq. destruct (Ascii.eqb c eq_sign) eqn:E; [apply eq_sign_code in E; lia | reflexivity].
+  - unfold is_printable. apply andb_true_intro; split; apply Nat.leb_le; lia.
+Qed.
+Lemma nonblank_first_last : forall k, forall_chars (fun c => negb (is_blank c)) k = true -> first_nonblank k = true /\ last_nonblank k = true.
+Proof.
+  unfold first_nonblank, last_nonblank. induction k as [|c r IH]; [now split|]. cbn [forall_chars]. intros H.
+  apply andb_prop in H as [H1 H2]. split; [exact H1|]. destruct r as [|c2 r2]; [exact H1|].
+  change (last_char (String c (String c2 r2))) with (last_char (String c2 r2)). now apply IH.
+Qed.
+
+Lemma len_pad8 : forall k, String.length k <= 8 -> String.length (pad_to 8 k) = 8.
+Proof. intros k H. unfold pad_to. rewrite len_app, len_repeat. lia. Qed.
+
+(* ---- a card with a standard keyword *)
+Lemma short_card : forall k v j, k <> EmptyString -> forall_chars key_char_short k = true -> String.length k <= 8 ->
+  let card := pad_to 8 k ++ String eq_sign (String blank (Q v j)) in
+  pad_to 8 (take 8 card) = pad_to 8 k /\ String.prefix hier_prefix card = false /\ card_name card = k /\
+  (commentary card = false -> card_value card = Some (Q v j)) /\ rstrip (pad_to 8 k) = k.
+Proof.
+  intros k v j NE KC L card.
+  pose proof (len_pad8 k L) as L8.
+  assert (T8 : take 8 card = pad_to 8 k).
+  { unfold card. pose proof (take_app_exact (pad_to 8 k) (String eq_sign (String blank (Q v j)))) as T. now rewrite L8 in T. }
+  assert (NB : forall_chars (fun c => negb (is_blank c)) k = true).
+  { apply (forall_chars_impl key_char_short); [|exact KC]. intros c H. apply short_char_facts in H as (H & _). now rewrite H. }
+  assert (NQ : forall_chars not_eq k = true).
+  { apply (forall_chars_impl key_char_short); [|exact KC]. intros c H. now apply short_char_facts in H. }
+  destruct (nonblank_first_last k NB) as [F La].
+  assert (PF : String.prefix hier_prefix card = false).
+  { destruct (String.prefix hier_prefix card) eqn:E; [|reflexivity].
+    pose proof (prefix_get _ _ E 8 blank eq_refl) as G.
+    unfold card in G. pose proof (get_app_exact (pad_to 8 k) eq_sign (String blank (Q v j))) as G2. rewrite L8 in G2.
+    rewrite G2 in G. discriminate. }
+  assert (RS : rstrip (pad_to 8 k) = k) by (unfold pad_to; now rewrite rstrip_app_blanks, rstrip_id).
+  repeat split.
+  - rewrite T8. unfold pad_to at 1. rewrite L8. cbn. apply append_empty_r.
+  - exact PF.
+  - unfold card_name. rewrite PF, T8. rewrite before_eq_none.
+    + unfold pad_to. now apply strip_blanks_pad.
+    + unfold pad_to. rewrite forall_chars_app, NQ. cbn. now apply forall_chars_repeat.
+  - intros CM. unfold card_value. rewrite CM, PF.
+    assert (D8 : drop 8 card = String eq_sign (String blank (Q v j))).
+    { unfold card. pose proof (drop_app_exact (pad_to 8 k) (String eq_sign (String blank (Q v j)))) as D. now rewrite L8 in D. }
+    rewrite D8. cbn [take String.eqb Ascii.eqb]. change (String.eqb "= " "= ") with true. cbn iota.
+    assert (D10 : drop 10 card = Q v j).
+    { unfold card. change (String eq_sign (String blank (Q v j))) with ("= " ++ Q v j). rewrite <- app_assoc_s.
+      pose proof (drop_app_exact (pad_to 8 k ++ "= ") (Q v j)) as D. rewrite len_app, L8 in D. exact D. }
+    rewrite D10. apply (parse_value_text_Q 0).
+  - exact RS.
+Qed.
+
+(* ---- a card with a HIERARCH keyword *)
+Definition lcard (k : string) (sp : nat) (v : string) (j : nat) : string :=
+  hier_prefix ++ ((k ++ blanks sp) ++ String eq_sign (String blank (Q v j))).
+Definition is_end_card (c : string) : bool := String.eqb (pad_to 8 (take 8 c)) "END     ".
+
+Lemma long_char_facts : forall c, key_char_long c = true -> not_eq c = true /\ is_printable c = true.
+Proof. intros c H. unfold key_char_long in H. apply andb_prop in H as [H H2]. apply andb_prop in H as [H0 H1]. now split. Qed.
+
+Lemma long_card : forall k v j sp, k <> EmptyString -> forall_chars key_char_long k = true ->
+  first_nonblank k = true -> last_nonblank k = true ->
+  is_end_card (lcard k sp v j) = false /\ commentary (lcard k sp v j) = false /\
+  card_name (lcard k sp v j) = k /\ card_value (lcard k sp v j) = Some (Q v j).
+Proof.
+  intros k v j sp NE KC F La.
+  assert (NQ : forall_chars not_eq (k ++ blanks sp) = true).
+  { rewrite forall_chars_app. rewrite (forall_chars_impl key_char_long not_eq k); [|intros c H; now apply long_char_facts in H | exact KC].
+    cbn. now apply forall_chars_repeat. }
+  assert (PF : String.prefix hier_prefix (lcard k sp v j) = true) by apply prefix_app.
+  assert (AE : after_eq (lcard k sp v j) = Some (String blank (Q v j))).
+  { unfold lcard. rewrite <- app_assoc_s. apply after_eq_app. rewrite forall_chars_app, NQ. reflexivity. }
+  assert (CM : commentary (lcard k sp v j) = false) by reflexivity.
+  split; [reflexivity|]. split; [exact CM|]. split.
+  - unfold card_name. rewrite PF, AE.
+    assert (D9 : drop 9 (lcard k sp v j) = (k ++ blanks sp) ++ String eq_sign (String blank (Q v j))).
+    { unfold lcard. apply (drop_app_exact hier_prefix). }
+    rewrite D9, before_eq_app by exact NQ. now apply strip_blanks_pad.
+  - unfold card_value. rewrite CM, PF, AE. apply (parse_value_text_Q 1).
+Qed.
+
+Lemma fit_value_Q : forall room v m, elen v + 2 <= room -> exists j, fit_value room (Q v m) = Q v j /\ j <= m.
+Proof.
+  intros room v m H. unfold fit_value. rewrite len_Q.
+  destruct (elen v + m + 2 <=? room) eqn:E; [exists m; split; [reflexivity | lia]|].
+  apply Nat.leb_gt in E. exists (room - 2 - elen v). split; [|lia].
+  replace (room - 1) with (S (elen v + (room - 2 - elen v))) by lia.
+  unfold Q. cbn [take]. rewrite <- (len_dbl v) at 1. rewrite take_app_more.
+  rewrite take_blanks_app by lia. cbn [append]. now rewrite app_assoc_s.
+Qed.
+
+Lemma printable_Q : forall v j, forall_chars is_printable v = true -> forall_chars is_printable (Q v j) = true.
+Proof.
+  intros v j H. unfold Q. cbn [forall_chars]. change (is_printable quote) with true. cbn [andb].
+  rewrite !forall_chars_app, forall_chars_dbl by exact H. rewrite forall_chars_repeat by reflexivity. reflexivity.
+Qed.
+
+Lemma strip_blanks_id : forall k, k <> EmptyString -> first_nonblank k = true -> last_nonblank k = true -> strip_blanks k = k.
+Proof. intros k N F L. rewrite <- (append_empty_r k) at 1. now apply (strip_blanks_pad k 0). Qed.
+
+Lemma pad8_not_structural : forall p k X, reserved p k = false -> rstrip (pad_to 8 k) = k -> reserved p (rstrip X) = true ->
+  String.eqb (pad_to 8 k) X = false.
+Proof.
+  intros p k X R RS RX. destruct (String.eqb (pad_to 8 k) X) eqn:E; [|reflexivity].
+  apply String.eqb_eq in E. rewrite E in RS. rewrite RS in RX. congruence.
+Qed.
+
+(* every accepted entry is written as one card that reads back as the same key and the value plus blanks *)
+Lemma entry_roundtrip : forall p k v, params_sound p = true -> accepts p k v = true ->
+  exists c j, ffmkky k (ffs2c v) = Some c /\ sanitize c = c /\ is_end_card c = false /\ card_name c = k /\
+              card_value c = Some (Q v j) /\ reserved p k = false.
+Proof.
+  intros p k v PS A.
+  assert (ST : forallb (reserved p) structural_names = true).
+  { unfold params_sound in PS. split_andb PS. exact PS0. }
+  assert (SN : reserved p "COMMENT" = true /\ reserved p "HISTORY" = true /\ reserved p "END" = true /\
+               reserved p "CONTINUE" = true /\ reserved p "" = true).
+  { cbn [forallb structural_names] in ST. repeat (apply andb_prop in ST as [? ST]). repeat split; assumption. }
+  destruct SN as (SC & SH & SE & SO & SB).
+  destruct (le_gt_dec (String.length k) 8) as [L|L].
+  - (* standard keyword *)
+    destruct (accepts_short p k v PS A L) as (R & KC & PV & EL).
+    assert (NE : k <> EmptyString) by (intros E; subst; congruence).
+    rewrite (ffs2c_ok v EL). set (j := 8 - elen v).
+    destruct (short_card k v j NE KC L) as (T8 & PF & CN & CV & RS).
+    assert (NB : forall_chars (fun c => negb (is_blank c)) k = true).
+    { apply (forall_chars_impl key_char_short); [|exact KC]. intros c H. apply short_char_facts in H as (H & _). now rewrite H. }
+    destruct (nonblank_first_last k NB) as [F La].
+    exists (pad_to 8 k ++ String eq_sign (String blank (Q v j))), j.
+    assert (CM : commentary (pad_to 8 k ++ String eq_sign (String blank (Q v j))) = false).
+    { unfold commentary. rewrite T8. cbn [existsb].
+      rewrite (pad8_not_structural p k "COMMENT " R RS SC).
+      rewrite (pad8_not_structural p k "HISTORY " R RS SH).
+      rewrite (pad8_not_structural p k "END     " R RS SE).
+      rewrite (pad8_not_structural p k "CONTINUE" R RS SO).
+      rewrite (pad8_not_structural p k "        " R RS SB). reflexivity. }
+    repeat split.
+    + unfold ffmkky. rewrite strip_blanks_id by assumption.
+      destruct (String.length k <=? 8) eqn:E; [reflexivity | apply Nat.leb_gt in E; lia].
+    + apply sanitize_id. unfold pad_to. rewrite !forall_chars_app.
+      rewrite (forall_chars_impl key_char_short is_printable k); [|intros c H; now apply short_char_facts in H | exact KC].
+      rewrite forall_chars_repeat by reflexivity. cbn [forall_chars]. rewrite printable_Q by exact PV. reflexivity.
+    + unfold is_end_card. rewrite T8. apply (pad8_not_structural p k "END     " R RS SE).
+    + exact CN.
+    + exact (CV CM).
+    + exact R.
+  - (* HIERARCH keyword *)
+    destruct (accepts_long p k v PS A L) as (R & KC & L66 & F & La & HP & PV & EL).
+    assert (NE : k <> EmptyString) by (intros E; subst; cbn in L; lia).
+    assert (EL68 : elen v <= 68) by lia.
+    rewrite (ffs2c_ok v EL68). set (m := 8 - elen v).
+    unfold ffmkky. rewrite strip_blanks_id by assumption.
+    destruct (String.length k <=? 8) eqn:E8; [apply Nat.leb_le in E8; lia|].
+    rewrite HP.
+    assert (PK : forall_chars is_printable k = true).
+    { apply (forall_chars_impl key_char_long); [|exact KC]. intros c H. now apply long_char_facts in H. }
+    destruct (80 <? String.length k + 12 + String.length (Q v m)) eqn:ES.
+    + (* "= " *)
+      rewrite !len_app. change (String.length hier_prefix) with 9. change (String.length "= ") with 2.
+      destruct (80 - (9 + String.length k + 2) <? 3) eqn:ER; [apply Nat.ltb_lt in ER; lia|].
+      destruct (fit_value_Q (80 - (9 + String.length k + 2)) v m) as (j & FV & JM); [lia|].
+      rewrite FV. exists (lcard k 0 v j), j.
+      destruct (long_card k v j 0 NE KC F La) as (EC & CM & CN & CV).
+      repeat split; try assumption.
+      * f_equal. unfold lcard. cbn [repeat_char]. rewrite append_empty_r, !app_assoc_s. reflexivity.
+      * apply sanitize_id. unfold lcard. rewrite !forall_chars_app, PK. cbn [repeat_char forall_chars].
+        rewrite printable_Q by exact PV. reflexivity.
+    + (* " = " *)
+      apply Nat.ltb_ge in ES. rewrite len_Q in ES.
+      rewrite !len_app. change (String.length hier_prefix) with 9. change (String.length " = ") with 3.
+      destruct (80 - (9 + String.length k + 3) <? 3) eqn:ER; [apply Nat.ltb_lt in ER; lia|].
+      destruct (fit_value_Q (80 - (9 + String.length k + 3)) v m) as (j & FV & JM); [lia|].
+      rewrite FV. exists (lcard k 1 v j), j.
+      destruct (long_card k v j 1 NE KC F La) as (EC & CM & CN & CV).
+      repeat split; try assumption.
+      * f_equal. unfold lcard. cbn [repeat_char]. rewrite !app_assoc_s. reflexivity.
+      * apply sanitize_id. unfold lcard. rewrite !forall_chars_app, PK. cbn [repeat_char forall_chars].
+        rewrite printable_Q by exact PV. reflexivity.
+Qed.
